@@ -40,6 +40,8 @@ func c02RuleAlphabet() []c02RuleVar {
 	out = append(out, c02RuleVar{kind: "pat", signal: "next@match"}, c02RuleVar{kind: "pat", signal: "readv"})
 	// next raised while the PATTERN of a rule is evaluated (in a callee): the element is abandoned, later rules do not see it
 	out = append(out, c02RuleVar{kind: "pat", pattern: 4})
+	// a pattern that reads an element that does not exist: null, hence false
+	out = append(out, c02RuleVar{kind: "pat", pattern: 5})
 	out = append(out, c02RuleVar{kind: "pat", pattern: 3, noBody: true}, c02RuleVar{kind: "pat", pattern: 1, noBody: true})
 	// a rule that changes the current root / element: roots selected by different selectors, and ENDFILE's view, must not leak into each other
 	out = append(out, c02RuleVar{kind: "pat", signal: "mutate"})
@@ -49,7 +51,7 @@ func c02RuleAlphabet() []c02RuleVar {
 func (r c02RuleVar) String() string {
 	s := r.kind
 	if r.kind == "pat" {
-		s = []string{"{}", "true{}", "false{}", "$>1{}", "nxp($){}"}[r.pattern]
+		s = []string{"{}", "true{}", "false{}", "$>1{}", "nxp($){}", "$[1]||$.nokey.deeper{}"}[r.pattern]
 		if r.noBody {
 			s = []string{"", "true", "", "$>1"}[r.pattern]
 		}
@@ -77,6 +79,8 @@ func c02Rule(v c02RuleVar, id int, withIndex bool) *Rule {
 		r.Pattern = Bin(">", V("$"), N("1"))
 	case 4:
 		r.Pattern = CallE(V("nxp"), V("$"))
+	case 5:
+		r.Pattern = Bin("||", Idx(V("$"), N("1")), Mem(Mem(V("$"), "nokey"), "deeper"))
 	}
 	if v.noBody {
 		return r
@@ -278,7 +282,7 @@ func init() {
 	n := len(alpha)
 	fw.Register(addTok(tokFramesC02, &fw.Prop{
 		ID: "C02",
-		Rule: "rule sequences over 33 rule variants (BEGIN/END/BEGINFILE/ENDFILE with nothing, exit or next; pattern-less, true, false and $>1 pattern rules with nothing, next or exit; next / exit raised in a callee inside a print list or an array literal; next raised by a callee while a rule's pattern is evaluated; next inside the block body of a binding match case and a rule that reads the bound name as a global; a body-less pattern rule, a rule that mutates $), every body printing its rule number, $, $file (and $index when every root is an array); " +
+		Rule: "rule sequences over 34 rule variants (BEGIN/END/BEGINFILE/ENDFILE with nothing, exit or next; pattern-less, true, false and $>1 pattern rules with nothing, next or exit; next / exit raised in a callee inside a print list or an array literal; next raised by a callee while a rule's pattern is evaluated; next inside the block body of a binding match case and a rule that reads the bound name as a global; a body-less pattern rule, a rule that mutates $), every body printing its rule number, $, $file (and $index when every root is an array); " +
 			"(A) all sequences of <= N rules on three rich configurations, (B) 16 fixed rich programs on all 915 configurations (0-2 files x 14 file contents incl. empty, two values and all root shapes x 5 selector lists), (C) all sequences of <= M rules on all configurations; " +
 			"oracle: the schedule model of DESIGN.md 3.13 (exact stdout, outcome and JSON output); a state is the order in which rule kinds fired; non-trivial = same",
 		Plan: func(t fw.Tier) int { return n*n + len(c02Configs()) },
